@@ -32,6 +32,8 @@ mod biarc {
                 state: AtomicBool::new(STATE_UNSHARED),
                 value,
             }));
+            #[cfg(aranya_core_verif)]
+            crate::verif::mem_event("alloc", ptr as usize);
             // SAFETY: `Box::into_raw` returns a non-null pointer.
             let ptr = unsafe { NonNull::new_unchecked(ptr) };
             Self(ptr)
@@ -45,6 +47,11 @@ mod biarc {
         /// Try to create a second handle, if it doesn't already exist.
         pub fn try_clone(&self) -> Option<Self> {
             // Try to transition to SHARED.
+            #[cfg(aranya_core_verif)]
+            {
+                crate::verif::yield_point("bi.clone");
+                crate::verif::mem_event("access", self.0.as_ptr() as usize);
+            }
             match self.inner().state.swap(STATE_SHARED, Ordering::AcqRel) {
                 // We were not already shared so we can create another handle.
                 STATE_UNSHARED => Some(Self(self.0)),
@@ -55,11 +62,21 @@ mod biarc {
 
         /// Get the inner data unconditionally.
         pub fn get_unconditional(&self) -> &T {
+            #[cfg(aranya_core_verif)]
+            {
+                crate::verif::yield_point("bi.get");
+                crate::verif::mem_event("access", self.0.as_ptr() as usize);
+            }
             &self.inner().value
         }
 
         /// Get the inner data only if there is currently a second handle.
         pub fn get_if_shared(&self) -> Option<&T> {
+            #[cfg(aranya_core_verif)]
+            {
+                crate::verif::yield_point("bi.load");
+                crate::verif::mem_event("access", self.0.as_ptr() as usize);
+            }
             match self.inner().state.load(Ordering::Acquire) {
                 STATE_UNSHARED => None,
                 STATE_SHARED => Some(&self.inner().value),
@@ -71,7 +88,17 @@ mod biarc {
         fn drop(&mut self) {
             // We transition to UNSHARED since there will no longer be multiple BiArcs active.
             // If we were already UNSHARED then we are the sole holder of the data.
+            #[cfg(aranya_core_verif)]
+            {
+                crate::verif::yield_point("bi.drop");
+                crate::verif::mem_event("access", self.0.as_ptr() as usize);
+            }
             if self.inner().state.swap(STATE_UNSHARED, Ordering::AcqRel) == STATE_UNSHARED {
+                #[cfg(aranya_core_verif)]
+                {
+                    crate::verif::yield_point("bi.free");
+                    crate::verif::mem_event("free", self.0.as_ptr() as usize);
+                }
                 // SAFETY: The data is not shared, so we can immediately drop it.
                 unsafe {
                     drop(Box::from_raw(self.0.as_ptr()));
